@@ -548,6 +548,10 @@ func (fc *FuncCtx) entryState() *State {
 			}
 			env := fc.specEnv(st, nil, fc.decl.Body.Lbrace+1, nil)
 			st.assume(env.evalBool(c.Expr))
+			if c.Free {
+				// a free precondition is assumed here and not demanded from any caller: an assumption of the proof
+				e.assumed["free (unchecked) precondition of "+fc.baseName()+": "+c.Src] = true
+			}
 		}
 	}
 	return st
